@@ -348,14 +348,23 @@ def r4_header(ctx):
         seen[m.name] = v
     ctx.check(len(set(seen.values())) == len(seen), 'R4', pf.loc, pf.qualname, 'prefix-distinct', 'the six prefixes are distinct')
     et = ctx.prog.func(f'{EXP}.export_token')
-    applied = False
-    for n in walk_local(et.node):
-        if isinstance(n, ast.If) and src(n.test) == 'isinstance(token, HeaderToken)':
-            for s in n.body:
-                if isinstance(s, ast.Assign) and src(s.value) in ('HeaderTokenGenerator.new(token=token, type=options.kern_type)',):
-                    tgt = s.targets[0].id
-                    applied = any(isinstance(c, ast.Call) and isinstance(c.func, ast.Attribute) and c.func.attr == 'tokenize'
-                                  and len(c.args) == 1 and F.is_name(c.args[0], tgt) for c in walk_local(et.node))
+    nd = et.params[1]
+    hdr = f'isinstance({nd}.token, HeaderToken)'
+    applied = True
+    n_hdr = 0
+    for cond, val, sp in symex.returns(et):
+        if not (isinstance(val, ast.Call) and isinstance(val.func, ast.Attribute) and val.func.attr == 'tokenize' and len(val.args) == 1):
+            applied = False
+            continue
+        x = val.args[0]
+        if F.forced(cond, hdr, True):
+            n_hdr += 1
+            applied = applied and F.same(ctx, et, x, f'HeaderTokenGenerator.new(token={nd}.token, type=options.kern_type)')
+        elif F.forced(cond, hdr, False):
+            applied = applied and src(x) == f'{nd}.token'
+        else:
+            applied = False
+    applied = applied and n_hdr > 0
     ctx.check(applied, 'R4', et.loc, et.qualname, 'header-rewrite-applied',
               'export_token rewrites every HeaderToken with options.kern_type and tokenizes the rewritten token')
 
